@@ -52,6 +52,19 @@ def find_witness(prop, label, repo):
     return last
 
 
+def any_witness(prop, repo, skip=()):
+    """Replay every catalogued input of the property (except `skip`); return the first that reproduces."""
+    last = None
+    for f in sorted(glob.glob(os.path.join(VERIF, "witnesses", prop, "*.json"))):
+        if os.path.basename(f) in skip:
+            continue
+        r = run_witness(f, repo)
+        last = r
+        if r.get("reproduced"):
+            return r
+    return last
+
+
 def replay_file(path, repo):
     doc = json.load(open(path))
     if "witness" in doc and doc["witness"] and doc["witness"].get("witness_file"):
